@@ -43,7 +43,9 @@ type B implements Linked & Node { link(x: Int, y: Color): B id: ID! b: Float tag
 type C implements Node { id: ID link(x: Int): Node tags(ids: [ID]): [String] }
 type Query { node: Node linked: Linked a: A b: B c: C }
 """
-SMALL_SDL = "interface N { id: ID! } type A implements N { id: ID! a(x: Int = 1): [Int!] } union U = A enum E { X Y } input I { a: Int } type Query { a: A u: U e(i: I): E }"
+SMALL_SDL = ("directive @dd(x: Int = 1) on FIELD_DEFINITION | OBJECT interface N { id: ID! } interface M { a: [Int!] } "
+             "type A implements N & M { id: ID! a(x: Int = 1): [Int!] @dd(x: 2) } type B { b: Int } union U = A | B enum E { X Y } "
+             "input I { a: Int } type Query { a: A u: U e(i: I): E } schema { query: Query }")
 HOOKS = ["on_argument_execution", "on_post_input_coercion", "on_field_execution", "on_pre_output_coercion", "on_introspection",
          "on_post_bake", "on_field_collection", "on_fragment_spread_collection", "on_inline_fragment_collection", "on_schema_execution",
          "on_schema_subscription"]
